@@ -23,6 +23,7 @@ theorem handle_keeps_state (st : Drv.DState) (line : String)
   · split <;> rfl
   · split <;> rfl
   · split <;> rfl
+  · split <;> rfl
   · rfl
 
 theorem handleG_slots (st : Drv.DState) (args : List String) :
@@ -45,6 +46,7 @@ theorem handle_slots_prefix (st : Drv.DState) (line : String)
   split
   · rename_i rest heq; exact absurd heq (h1 rest)
   · exact handleG_slots st _
+  · split <;> exact ⟨[], by simp⟩
   · split <;> exact ⟨[], by simp⟩
   · split <;> exact ⟨[], by simp⟩
   · split <;> exact ⟨[], by simp⟩
